@@ -181,7 +181,7 @@ func oracleC06(r *Result) {
 			continue
 		}
 		if v.Lenient {
-			bad("content-outside-root-element", "the request is one well-formed XML document", "character data or markup outside the root element")
+			bad("not-well-formed:"+v.LenientWhy, "the request is one well-formed XML document", v.LenientWhy)
 		}
 		root := v.Root
 		if root.Attr("ID") == "" {
